@@ -187,7 +187,8 @@ def run(tier, seed):
     tasks = []
     for ci, (s, ety, esz, pos, otxt, oexp, tag) in enumerate(cases):
         # every second case stands among neighbours that are nested types themselves, a sized column between two of them
-        cols = ["p1 int NOT NULL", "p2 varchar(7)"] if ci % 2 == 0 else ["p1 MAP<string, int> NOT NULL", "p2 varchar(7)", "p3 STRUCT<f1:int, f2:string>"]
+        # ... every third case among neighbours that carry options of their own (a DEFAULT / COMMENT before a nested type must not change how it is lexed)
+        cols = list(NEIGHBOURS[ci % 3][0])
         cols.insert(pos, f"focus {s}{otxt}")
         # every third case stands behind an unsupported statement holding a stray `>` (the nesting counter must not leak)
         pre = "CREATE VIEW v0 AS SELECT a FROM t0 WHERE a > 0;\n" if (len(tasks) % 3 == 0 and not tag) else ""
@@ -195,9 +196,8 @@ def run(tier, seed):
     outs, nu = C.parse_many(tasks)
     for ci, ((s, ety, esz, pos, otxt, oexp, tag), tk, o) in enumerate(zip(cases, tasks, outs)):
         case = {"ddl": tk[0], "type": s, "position": pos + 1, "option": otxt.strip(), "spec_dev": sorted(tag)}
-        ncols = 3 if ci % 2 == 0 else 4
-        want_others = [("p1", "int", None, False), ("p2", "varchar", 7, True)] if ci % 2 == 0 else \
-                      [("p1", "MAP<string,int>", None, False), ("p2", "varchar", 7, True), ("p3", "STRUCT<f1:int,f2:string>", None, True)]
+        want_others = NEIGHBOURS[ci % 3][1]
+        ncols = len(want_others) + 1
         paths = []
         if o[0] != "ok":
             paths = ["raised"]
@@ -239,6 +239,12 @@ def run(tier, seed):
                       "the words of a type are the white-space separated chunks after the pre-processor spaced out commas / parentheses (checked against the real lexer)",
                       "TLC, PLY, CPython trusted"])
     return rc
+
+
+NEIGHBOURS = [(["p1 int NOT NULL", "p2 varchar(7)"], [("p1", "int", None, False), ("p2", "varchar", 7, True)]),
+              (["p1 MAP<string, int> NOT NULL", "p2 varchar(7)", "p3 STRUCT<f1:int, f2:string>"],
+               [("p1", "MAP<string,int>", None, False), ("p2", "varchar", 7, True), ("p3", "STRUCT<f1:int,f2:string>", None, True)]),
+              (["p1 int NOT NULL DEFAULT 0 COMMENT 'n'", "p2 varchar(7) DEFAULT 'n/a'"], [("p1", "int", None, False), ("p2", "varchar", 7, True)])]
 
 
 def replay(path):
